@@ -7,13 +7,14 @@
 //! This module parses eBPF assembly language source code.
 
 use combine::error::StreamError;
-use combine::parser::char::{alpha_num, char, digit, hex_digit, spaces, string};
+use combine::parser::char::{alpha_num, char, digit, hex_digit, letter, spaces, string};
 use combine::stream::position::{self};
 use combine::stream::StreamErrorFor;
 #[cfg(feature = "std")]
 use combine::EasyParser;
 use combine::{
-    attempt, between, eof, many, many1, one_of, optional, sep_by, ParseError, Parser, Stream,
+    attempt, between, eof, many, many1, not_followed_by, one_of, optional, sep_by, ParseError,
+    Parser, Stream,
 };
 
 use crate::lib::*;
@@ -76,7 +77,9 @@ where
     I: Stream<Token = char>,
     I::Error: ParseError<I::Token, I::Range, I::Position>,
 {
-    char('r')
+    // `r` followed by a letter is the start of a mnemonic (`rsh64` after an instruction without
+    // operands), not of a register: give the `r` back instead of failing on the letter.
+    attempt(char('r').skip(not_followed_by(letter())))
         .with(many1(digit()))
         .and_then(|x: String| {
             x.parse::<i64>()
